@@ -666,13 +666,16 @@ def r4(run, ctx):
     cfg = ctx.cfg(es)
     rd = reaching_defs(ctx, es)
     loops = [n for n in cfg.nodes if n.kind == 'iter' and isinstance(n.ast.target, ast.Name) and
-             isinstance(n.ast.iter, ast.Call) and astq.call_last(n.ast.iter) == 'keys' and
-             any(astq.call_last(c) == '_expand_vars' for b in nodes_within(cfg, n.ast.body)
-                 for c in b.calls())]
+             any(astq.call_last(c) == '_expand_vars' and len(c.args) == 3 and
+                 norm_text(c.args[0]) in (norm_text(n.ast.iter), norm_text(n.ast.iter)[:-7]
+                                          if norm_text(n.ast.iter).endswith('.keys()') else '')
+                 for b in nodes_within(cfg, n.ast.body) for c in b.calls())]
     ok = False
     if loops:
         lv = loops[0].ast.target.id
-        subject = norm_text(loops[0].ast.iter.func.value)
+        subject = norm_text(loops[0].ast.iter)
+        if subject.endswith('.keys()'):
+            subject = subject[:-7]
         calls = [n for n in nodes_within(cfg, loops[0].ast.body) for c in n.calls()
                  if astq.call_last(c) == '_expand_vars' and
                  [norm_text(a) for a in c.args][:2] == [subject, lv]]
@@ -768,8 +771,24 @@ def r5(run, ctx):
                     run.fail('R5', g, node.ast, 'iteration over a set while building the '
                              'configuration (order not deterministic)')
     run.count('R5', n, 3, 'functions in the closure of get_config')
-    t = norm_text(f.node)
+    from sa.dataflow import reaching_defs
+    rdf = reaching_defs(ctx, f)
+
+    def by_name(e):
+        """key function that selects item['name'] (lambda or operator.itemgetter, both
+        canonicalised to a lambda)"""
+        return isinstance(e, ast.Lambda) and len(e.args.args) == 1 and \
+            isinstance(e.body, ast.Subscript) and isinstance(e.body.value, ast.Name) and \
+            e.body.value.id == e.args.args[0].arg and astq.const_value(e.body.slice) == 'name'
     for lst in ('watchers', 'plugins', 'sockets'):
-        run.check('R5', ('%s.sort(key=name)' % lst) in t and "name = operator.itemgetter('name')" in t,
-                  'the %s list is sorted by name' % lst, f, f.node,
+        ok = False
+        for node in ctx.live_nodes(f):
+            for c in node.calls():
+                if isinstance(c.func, ast.Attribute) and c.func.attr == 'sort' and \
+                        norm_text(c.func.value) == lst and not c.args:
+                    key = astq.kwarg(c, 'key')
+                    rev = astq.kwarg(c, 'reverse')
+                    if key is not None and rev is None:
+                        ok = all(by_name(a.expr) for a in rdf.expand(node, key))
+        run.check('R5', ok, 'the %s list is sorted by name' % lst, f, f.node,
                   'the order of %s depends on the file layout' % lst, construct='sort %s' % lst)
